@@ -18,6 +18,12 @@ import (
 	"verif/internal/h"
 )
 
+// ScratchDir, when set before NewEnv, is where the files handed to ReadFrom
+// live (it is wiped first); otherwise a fresh temporary directory is used. A
+// worker sets it to a per-shard directory under its output directory so that
+// a process killed in the middle of a case leaves nothing behind in $TMPDIR.
+var ScratchDir string
+
 // MaxTotal bounds the body of one program.
 const MaxTotal = 1 << 20
 
@@ -114,9 +120,17 @@ func NewEnv(opt guardalloc.Options) (*Env, error) {
 		ServerExecutor: inline,
 		ClientExecutor: inline,
 	})
-	d, err := os.MkdirTemp("", "verif-respgen-")
-	if err != nil {
-		return nil, err
+	d := ScratchDir
+	if d != "" {
+		_ = os.RemoveAll(d)
+		if err := os.MkdirAll(d, 0o755); err != nil {
+			return nil, err
+		}
+	} else {
+		var err error
+		if d, err = os.MkdirTemp("", "verif-respgen-"); err != nil {
+			return nil, err
+		}
 	}
 	e.tmpDir = d
 	e.patPath = d + "/pattern"
